@@ -765,12 +765,8 @@ def signature(mode, ev, clause):
     detail = ""
     if clause == "Stat.ServerTimeSuspendedIsZero":
         rows = [r for r in ev.get("tab", []) if r["n"] > 0 and
-                (r["asv"][0] != 0 or r["slo"] != 0 or r["shi"] != 0)]
-        kinds = sorted({"avg%s.min%s.max%s" % (
-            "0" if r["asv"][0] == 0 else "N",
-            {0: "0", INF: "inf"}.get(r["slo"], "N"),
-            "0" if r["shi"] == 0 else "N") for r in rows})
-        detail = "|".join(kinds)
+                r["asv"][0] == 0 and r["shi"] == 0 and r["slo"] == INF]
+        detail = "avg0.mininf.max0" if rows else "other"
     elif clause == "Last.RequestLen":
         if ev.get("sent") and ev["qlen"] == ev["wqc"] and ev["wqc"] != ev["wqn"]:
             detail = "characters"
